@@ -43,6 +43,7 @@ type event struct {
 var lineRe = regexp.MustCompile(`^(\d+)\s+(.*)$`)
 var callRe = regexp.MustCompile(`^(\w+)\((.*)\)\s+=\s+(-?\d+|\?)(.*)$`)
 var unfinishedRe = regexp.MustCompile(`^(\w+)\((.*) <unfinished \.\.\.>$`)
+var trackedRe = regexp.MustCompile(`\b(open|openat|write|close|rename|renameat|renameat2|fchmodat|chmod|fchmod|unlinkat|unlink|ftruncate|pwrite64|writev)\(`)
 var resumedRe = regexp.MustCompile(`^<\.\.\. (\w+) resumed>(.*)$`)
 
 func splitArgs(s string) []string {
@@ -130,6 +131,11 @@ func parseLog(text string) ([]event, error) {
 		if strings.HasPrefix(rest, "+++") || strings.HasPrefix(rest, "---") {
 			continue
 		}
+		if strings.Contains(rest, "???") {
+			// a thread caught while exiting: strace does not know the call ("???( <unfinished ...>", "<... ??? resumed>");
+			// never one of the traced file operations
+			continue
+		}
 		if u := unfinishedRe.FindStringSubmatch(rest); u != nil {
 			pending[pid] = u[1] + "(" + u[2]
 			continue
@@ -144,7 +150,10 @@ func parseLog(text string) ([]event, error) {
 		}
 		c := callRe.FindStringSubmatch(rest)
 		if c == nil {
-			return nil, fmt.Errorf("unparsable strace call %q", trunc(rest, 200))
+			if trackedRe.MatchString(rest) {
+				return nil, fmt.Errorf("unparsable strace call %q", trunc(rest, 200))
+			}
+			continue // not a file operation we model (e.g. an exit notification)
 		}
 		ret := 0
 		if c[3] == "?" {
